@@ -154,6 +154,26 @@ def belowH (first : Step α) (tab : Pred α) : Nat → Pred α
         else o
       | .raise _ => o)] none []
 
+/-- the same with the table consulted *after* the nested evaluation:
+`P(m) = (r := container(m.data) and H(m); t := tab(m); t if t else r)` -/
+def belowH2 (first : Step α) (tab : Pred α) : Nat → Pred α
+  | 0 => fun _ => { evs := [], res := .raise (.user "FUEL") }
+  | k+1 => im.has [first, .filter (fun n =>
+      if (im.cx.toJ n.data).isContainer then
+        let o' := belowH2 first tab k n
+        match o'.res with
+        | .raise _ => o'
+        | .val r =>
+          let o := tab n
+          match o.res with
+          | .val j => { evs := o'.evs ++ o.evs, res := .val (if j.truthy then j else r) }
+          | .raise e => { evs := o'.evs ++ o.evs, res := .raise e }
+      else
+        let o := tab n
+        match o.res with
+        | .val j => { evs := o.evs, res := .val (if j.truthy then j else .bool false) }
+        | .raise _ => o)] none []
+
 mutual
 partial def decSteps (j : Json) : E (List (Step α)) := do
   let a ← getArr j
@@ -223,6 +243,8 @@ partial def decPred (j : Json) : E (Pred α) := do
         | .error e, _ => { evs := evs, res := .raise e }
   | [.str "below", first, tabp] => do
       return belowH im (← decStep first) (← decPred tabp) 64
+  | [.str "below2", first, tabp] => do
+      return belowH2 im (← decStep first) (← decPred tabp) 64
   | _ => jErr "bad pred" j
 end
 end
